@@ -19,7 +19,10 @@ def subset_filter_role(ctx, b):
     Returns list of problems (empty = holds)."""
     def pred(body, g, elem):
         if cname(g[1]) != 'RobotBody::collides':
-            return None
+            # the wrapper's own collides(joints) is body.collides(joints, kinematics): written out
+            g = strip(util.peval(ctx.prog, g))
+            if not (isinstance(g, tuple) and g[0] == 'call' and cname(g[1]) == 'RobotBody::collides' and len(g) == 5):
+                return None
         e = strip(g[3])
         while isinstance(e, tuple) and e[0] in ('ref', 'deref'):
             e = e[1]
